@@ -22,6 +22,7 @@ OTHER = {
     "time": ([datetime.time(1, 2, 3), datetime.time(23, 59, 59)], "time"),
 }
 ALLC = sorted(set(STR) | set(OTHER))
+MIXED = {"mix_none_first": ([None, "abc", "it's"], "varchar"), "mix_int_float": ([1, 2.5, -3.75], "double"), "mix_str_none": (["a", None, "b\\c"], "varchar")}
 
 
 def same(a, b) -> bool:
@@ -37,11 +38,11 @@ def same(a, b) -> bool:
 def ph(style, form, i=0):
     if style == "qmark":
         return "?"
-    return f"%(p{i})s" if form == "dict" else "%s"
+    return f"%(p{i})s" if form in ("dict", "dictre") else "%s"
 
 
 def pack(style, form, vals):
-    if form == "dict":
+    if form in ("dict", "dictre"):
         return {f"p{i}": v for i, v in enumerate(vals)}
     return tuple(vals) if style != "qmark" else list(vals)
 
@@ -68,7 +69,9 @@ class C08(Prop):
         c = {"ClassesUsed": set(ALLC), "Devs": set(), "Depth": 5, "MaxFails": 0, "SampleOneIn": 1}
         return [dict(name="mc_ideal", consts=c, invariants=["StepInv"], constraint="Bound", view="ViewSt"),
                 dict(name="mc_nul", consts=dict(c, Devs={"C08.nul_character_rejected"}, ClassesUsed={"nul"}, Depth=4), invariants=["StepInv"],
-                     constraint="Bound", view="ViewSt", devs=["C08.nul_character_rejected"])]
+                     constraint="Bound", view="ViewSt", devs=["C08.nul_character_rejected"]),
+                dict(name="mc_qmark_merge", consts=dict(c, Devs={"C08.qmark_merge_rejected"}, ClassesUsed={"plain"}, Depth=4), invariants=["StepInv"],
+                     constraint="Bound", view="ViewSt", devs=["C08.qmark_merge_rejected"])]
 
     def generations(self, tier, seed):
         big = tier == "thorough"
@@ -122,22 +125,35 @@ class C08(Prop):
 
     def _bind(self, op, conn, cur, raw, rng, tname):
         style, form, pos, vc = op["style"], op["form"], op["pos"], op["vc"]
-        if vc in STR:
+        if vc in MIXED:
+            vals, ctype = MIXED[vc]
+        elif vc in STR:
             vals, ctype = STR[vc], "varchar"
         else:
             vals, ctype = OTHER[vc]
+
+        def P(vals_):
+            d = pack(style, form, vals_)
+            if form == "dictre":
+                # the caller's dict object has already served an earlier execute
+                cur.execute("select " + ", ".join(ph(style, form, i) for i in range(len(vals_))), d).fetchall()
+            return d
+
         v = rng.choice(vals)
         fq = f"DB1.S1.{tname}"
         raw.execute(f"create table {fq} (v {ctype})")
         obs = {"res": "ok", "same": True, "rows": 0, "others": "ok"}
         try:
             if form == "many":
-                seq = [rng.choice(vals) for _ in range(3)]
+                seq = list(vals) if vc in MIXED else [rng.choice(vals) for _ in range(3)]
                 cur.executemany(f"insert into {tname} (v) values ({ph(style, 'seq')})", [pack(style, "seq", [x]) for x in seq])
                 back = [r[0] for r in raw.execute(f"select v from {fq}").fetchall()]
-                obs["same"] = len(back) == 3 and all(any(same(x, b) for b in back) for x in seq)
+                if vc in MIXED:      # one column for values of several Python types: compared by value
+                    obs["same"] = len(back) == 3 and sorted(map(repr, back)) == sorted(repr(float(x) if isinstance(x, (int, float)) and ctype == "double" else x) for x in seq)
+                else:
+                    obs["same"] = len(back) == 3 and all(any(same(x, b) for b in back) for x in seq)
             elif pos == "values":
-                cur.execute(f"insert into {tname} (v) values ({ph(style, form)})", pack(style, form, [v]))
+                cur.execute(f"insert into {tname} (v) values ({ph(style, form)})", P([v]))
                 back = [r[0] for r in conn.cursor().execute(f"select v from {tname}").fetchall()]
                 obs["same"] = len(back) == 1 and same(v, back[0])
             else:
@@ -145,21 +161,28 @@ class C08(Prop):
                 raw.execute(f"insert into {fq} values (?)", [v])
                 if pos == "where":
                     if v is None:
-                        got = cur.execute(f"select count(*) from {tname} where v is not distinct from {ph(style, form)}", pack(style, form, [v])).fetchall()
+                        got = cur.execute(f"select count(*) from {tname} where v is not distinct from {ph(style, form)}", P([v])).fetchall()
                     else:
-                        got = cur.execute(f"select count(*) from {tname} where v = {ph(style, form)}", pack(style, form, [v])).fetchall()
+                        got = cur.execute(f"select count(*) from {tname} where v = {ph(style, form)}", P([v])).fetchall()
                     obs["same"] = got == [(1,)]
                 elif pos == "inlist":
                     other = rng.choice(vals)
                     got = cur.execute(f"select count(*) from {tname} where v in ({ph(style, form, 0)}, {ph(style, form, 1)})",
-                                      pack(style, form, [other, v])).fetchall()
+                                      P([other, v])).fetchall()
                     obs["same"] = got == [(1 if v is not None else 0,)]
                 elif pos == "listparam":
                     other = rng.choice(vals)
-                    got = cur.execute(f"select count(*) from {tname} where v in ({ph(style, form)})", pack(style, form, [[other, v]])).fetchall()
+                    got = cur.execute(f"select count(*) from {tname} where v in ({ph(style, form)})", P([[other, v]])).fetchall()
                     obs["same"] = got == [(1 if v is not None else 0,)]
+                elif pos == "merge":
+                    raw.execute(f"delete from {fq}")
+                    # the bound value stands directly in the INSERT branch of the MERGE
+                    cur.execute(f"merge into {tname} using (select 1 as k) s on {tname}.v is null and s.k = 0 "
+                                f"when not matched then insert (v) values ({ph(style, form)})", P([v]))
+                    back = [r[0] for r in raw.execute(f"select v from {fq}").fetchall()]
+                    obs["same"] = len(back) == 1 and same(v, back[0])
                 elif pos == "select":
-                    got = cur.execute(f"select {ph(style, form)} as x", pack(style, form, [v])).fetchall()
+                    got = cur.execute(f"select {ph(style, form)} as x", P([v])).fetchall()
                     # a bound value is written as the literal the connector renders for it: 1.5 is a NUMBER literal (Decimal),
                     # a Decimal / date / time is sent as a quoted string - equal to the literal, so equal as number or as text
                     b = got[0][0] if len(got) == 1 else None
@@ -169,7 +192,7 @@ class C08(Prop):
                 elif pos == "like":
                     if isinstance(v, str):
                         pat = v.replace("\\", "\\\\").replace("%", "\\%").replace("_", "\\_")
-                        got = cur.execute(f"select count(*) from {tname} where v like {ph(style, form)} escape '\\\\'", pack(style, form, [pat])).fetchall()
+                        got = cur.execute(f"select count(*) from {tname} where v like {ph(style, form)} escape '\\\\'", P([pat])).fetchall()
                         obs["same"] = got == [(1,)]
             obs["rows"] = raw.execute(f"select count(*) from {fq}").fetchall()[0][0]
         except Exception:
